@@ -358,6 +358,20 @@ both('t_maca_core', MC,
       'r(x, z) <-- k(x), p(x, t1) if *t1 > 6, p(x + 1, t2) if *t2 > 6, edge(x, z)',
       'r(t, w) <-- k(t), p(t, t1) if let Some(w) = Some(*t1 + 1) if *t1 > 0',
       'b(x, t) <-- edge(x, t), p(x, t1) let u1 = *t1 + 1 if u1 > 3, edge(u1, t1), p(t, t2) let u2 = *t2 + 1 if u2 > 3, edge(u2, t2)'], tags=['twin'])
+# `expr` parameters stand for one operand
+MACX = ['macro dbl($x: expr, $r: ident) { let $r = $x * 2 }',
+        'macro neg1($x: expr, $r: ident) { let $r = 0 - $x }',
+        'macro far($x: expr) { edge($x, t), if *t > $x * 2 }']
+both('t_macx_sugar', MC, [], body=['pub struct P;'] + [d + ';' for d in MC] + MACX + [
+     'r(x, d) <-- k(x), dbl!(x + 1, d);',
+     'r(x, d) <-- k(x), neg1!(x - 3, d);',
+     'a(x) <-- k(x), far!(x + 1);',
+     'a(x) <-- k(x), far!(x);'], tags=['twin'], twin=('t_macx_core', 'L'))
+both('t_macx_core', MC,
+     ['r(x, d) <-- k(x), let d = (x + 1) * 2',
+      'r(x, d) <-- k(x), let d = 0 - (x - 3)',
+      'a(x) <-- k(x), edge((x + 1), t1), if *t1 > (x + 1) * 2',
+      'a(x) <-- k(x), edge(x, t1), if *t1 > x * 2'], tags=['twin'])
 # a disjunction inside a macro body whose locals are private to one disjunct each
 MACD = ['macro alt($a: expr, $b: expr) { (edge($a, t1), p(t1, $b) | p($a, t2), edge(t2, $b)) }',
         'macro alt2($a: expr, $b: expr) { k($a), (alt!($a, m) | edge($a, m)), edge(m, $b) }']
